@@ -142,4 +142,30 @@ theorem tie_rbVerify : rbVerify =
     ["unless timestamp =~ /^[\\da-f]+$/", "if timestamp.to_i(16) < (opts[:now] or db_current_time.to_i)",
      "if my_signature != given_signature"] := rfl
 
+/-- `Model.C07.remoteProxyGet`: the proxy's own control flow contains no GetBlock / PutBlock /
+volume-manager call (the filter asked for them; none is present): token check, optional local
+caching writer, the loop over the parts, remoteClient.Get, status mapping -/
+theorem tie_remoteGetSkeleton : remoteGetSkeleton =
+    ["call GetAPIToken => token", "if token == \"\" {", "call http.Error", "return", "}",
+     "call strings.SplitN", "if strings.SplitN(r.Header.Get(\"X-Keep-Signature\"), \",\", 2)[0] == \"local\" {",
+     "call getBufferWithContext => buf,err", "if err != nil {", "call http.Error", "return", "}", "defer", "defer", "}",
+     "call strings.Split", "for {", "case {", "}", "call strings.HasPrefix", "case {", "continue", "}", "case {",
+     "if !ok {", "call http.Error", "return", "}", "call rp.remoteClient => kc,err",
+     "if err == auth.ErrObsoleteToken {", "call http.Error", "return", "} else {", "if err != nil {", "call http.Error",
+     "return", "}", "}", "}", "}", "if remoteClient == nil {", "call http.Error", "return", "}",
+     "call strings.Join => locator", "call remoteClient.Get => rdr,_,_,err", "case {", "defer", "call io.Copy", "}",
+     "case {", "call http.Error", "}", "case {", "call http.Error", "}"] := rfl
+
+/-- `Model.C07.remoteParts`: the three cases of the loop and the exits -/
+theorem tie_remoteGetConds : remoteGetConds =
+    ["if token == \"\"", "if strings.SplitN(r.Header.Get(\"X-Keep-Signature\"), \",\", 2)[0] == \"local\"",
+     "if err != nil", "case i == 0", "case strings.HasPrefix(part, \"A\")",
+     "case len(part) > 7 && part[0] == 'R' && part[6] == '-'", "if !ok", "if err == auth.ErrObsoleteToken",
+     "if err != nil", "if remoteClient == nil", "case nil", "case *keepclient.ErrNotFound", "default"] := rfl
+
+/-- `Model.C07.saltToken` / `isObsoleteToken` -/
+theorem tie_saltToken : saltTokenText =
+    "{ parts := strings.Split(token, \"/\") if len(parts) < 3 || parts[0] != \"v2\" { if reObsoleteToken.MatchString(token) { return \"\", ErrObsoleteToken } return \"\", ErrTokenFormat } uuid := parts[1] secret := parts[2] if len(secret) != 40 { hmac := hmac.New(sha1.New, []byte(secret)) io.WriteString(hmac, remote) secret = fmt.Sprintf(\"%x\", hmac.Sum(nil)) return \"v2/\" + uuid + \"/\" + secret, nil } else if strings.HasPrefix(uuid, remote) { return token, nil } else { return \"\", ErrSalted } }" := rfl
+theorem tie_reObsoleteToken : reObsoleteToken = "^[0-9a-z]{41,}$" := rfl
+
 end ArvVerif.Tie.C07
